@@ -738,6 +738,7 @@ def replay(ctx, data):
         print("replay: recorded = %r" % {k_: d[k_] for k_ in d if k_ in ("cross_sections", "mie", "multisphere", "rayleigh")})
     print("replay: re-running the whole check with the recorded seed to re-evaluate the failing predicate")
     ctx.seed = data.get("seed", ctx.seed)
+    ctx.tier = data.get("tier", ctx.tier)
     run(ctx)
 
 
